@@ -155,7 +155,7 @@ class C06(fw.Property):
     trusted_base = ["hand-written Model/C06.v (validated by the block_sequences stream on every run)",
                     "harness: virtual-time loop (ideal timers), fake endpoints/transport, message codec of aiocoap used to put requests on the simulated wire",
                     "Site path stripping is mirrored by the harness (resource index + remaining Uri-Path), not modelled"]
-    assumptions = ["main model (run/step, all history theorems): handlers are atomic — render() does not yield between being invoked and returning; overlapping handlers are covered by the schedule model srun (requests without Block1) and by the oracle-only stream overlapping_uploads, where /repo violates the property (known findings)",
+    assumptions = ["main model (run/step, all history theorems): handlers are atomic — render() does not yield between being invoked and returning; overlapping handlers are covered by the schedule model srun (requests without Block1; invariant: stored rendering = that of the latest begun request) and by the oracle-only stream overlapping_uploads",
                    "one endpoint object per blockwise_key; maximum_payload_size / maximum_block_size_exp constant per endpoint",
                    "option values canonical (minimal uint encoding), so value equality = byte equality"]
 
